@@ -776,9 +776,9 @@ GRAPH_ALIGN = norm("""
 			if (i >= 4) { break; }
 			switch (v[i++]) {
 			  case 0: len = i - 1; break;
-			  case 'B': case 'b': n |= MPT_ENUM(AlignBegin) << i*2; break;
-			  case 'E': case 'e': n |= MPT_ENUM(AlignEnd)   << i*2; break;
-			  case 'Z': case 'z': n |= MPT_ENUM(AlignZero)  << i*2; break;
+			  case 'B': case 'b': n |= MPT_ENUM(AlignBegin) << (i-1)*2; break;
+			  case 'E': case 'e': n |= MPT_ENUM(AlignEnd)   << (i-1)*2; break;
+			  case 'Z': case 'z': n |= MPT_ENUM(AlignZero)  << (i-1)*2; break;
 			  default:;
 			}
 		}
